@@ -131,7 +131,8 @@ def check_layout(case, R: engine.Acc):
         f = wsd / rel_file
         f.parent.mkdir(parents=True)
         uses_dep = case["designation"] in ("two-roots", "two-roots-reversed")
-        f.write_text(("other.x.O.1.0 dep\n" if uses_dep else "") + "uint8 a\n@sealed\n")
+        is_service = case["short"] == "Type_1" and case["port"] is None  # a service definition: its request / response parts carry paths too
+        f.write_text(("other.x.O.1.0 dep\n" if uses_dep else "") + "uint8 a\n@sealed\n" + ("---\nuint8 b\n@extent 64\n" if is_service else ""))
         other = wsd / "other"
         (other / "x").mkdir(parents=True)
         (other / "x" / "O.1.0.dsdl").write_text("@sealed\n")
@@ -209,6 +210,14 @@ def check_layout(case, R: engine.Acc):
                 R.violation("documented-designation-raised:%s" % type(ex).__name__, "the documented ways of designating targets and roots work", case, observed=repr(ex)[:300])
             return
         got = [identity(t, base) for t in res]
+        if len(got) == 1 and got[0] == exp and isinstance(res[0], pydsdl.ServiceType):
+            for part, suffix in ((res[0].request_type, "Request"), (res[0].response_type, "Response")):
+                pexp = dict(exp, full_name=exp["full_name"] + "." + suffix, port=None)
+                pgot = identity(part, base)
+                if pgot != pexp:
+                    bad = next(k for k in pexp if pgot[k] != pexp[k])
+                    R.violation("identity-differs:service-part:" + bad, "the request / response types of a service point back to the service's file and root directory", case, observed=pgot, expected=pexp)
+                    return
         if len(got) != 1 or got[0] != exp:
             R.outcome("identity-wrong")
             bad = "count" if len(got) != 1 else next(k for k in exp if got[0][k] != exp[k])
